@@ -36,6 +36,7 @@ func c08Tree() *c08tree {
 		t := &c08tree{root: filepath.Join(base, "root"), files: map[string][]byte{}}
 		os.MkdirAll(filepath.Join(t.root, "dir"), 0o755)
 		os.MkdirAll(filepath.Join(t.root, "noindex"), 0o755)
+		os.MkdirAll(filepath.Join(t.root, "many"), 0o755)
 		mk := func(rel string, n int) {
 			b := make([]byte, n)
 			for i := range b {
@@ -54,8 +55,12 @@ func c08Tree() *c08tree {
 		mk("dir/index.html", 33)
 		mk("dir/inner.txt", 12)
 		mk("noindex/x.txt", 3)
+		for i := 0; i < 150; i++ { // a directory whose generated index page is larger than a "small file" (8 KiB)
+			mk(fmt.Sprintf("many/entry-with-a-long-name-%03d.txt", i), 2)
+		}
 		t.secret = []byte("TOP-SECRET-OUTSIDE-THE-ROOT")
 		os.WriteFile(filepath.Join(base, "secret.txt"), t.secret, 0o644)
+		os.WriteFile(filepath.Join(base, "index.html"), t.secret, 0o644) // what a listing of the root's parent would serve
 		c08t = t
 	})
 	return c08t
@@ -217,7 +222,7 @@ func init() {
 				}
 			}
 			if !isFile {
-				if _, isDir := map[string]bool{"dir": true, "noindex": true}[res]; isDir {
+				if _, isDir := map[string]bool{"dir": true, "noindex": true, "many": true}[res]; isDir {
 					return fs // redirect to dir/
 				}
 				if strings.Contains(res, "\x00") && status == 400 {
@@ -265,7 +270,7 @@ func init() {
 			return fs
 		},
 		Gen: func(t *T) {
-			paths := []string{"/five.txt", "/empty.txt", "/one.txt", "/f8191.bin", "/f8192.bin", "/f8193.bin", "/big.bin", "/dir/inner.txt", "/dir/", "/dir", "/noindex/", "/missing",
+			paths := []string{"/five.txt", "/empty.txt", "/one.txt", "/f8191.bin", "/f8192.bin", "/f8193.bin", "/big.bin", "/dir/inner.txt", "/dir/", "/dir", "/noindex/", "/many/", "/many", "/missing",
 				"/../secret.txt", "/%2e%2e/secret.txt", "/dir/../../secret.txt", "/dir/%2e%2e/%2e%2e/secret.txt", "/dir/..%2f..%2fsecret.txt", "//five.txt", "/./five.txt",
 				"/dir/../five.txt", "/dir/%2e%2e/five.txt", "/five.txt/", "/%2e%2e%2fsecret.txt", "/..", "/dir/..", "/%66ive.txt", "/five.txt%00", "/\\..\\secret.txt"}
 			var ranges []string
